@@ -238,3 +238,305 @@ Ltac fin :=
 Ltac destruct_chans :=
   repeat match goal with c : chan |- _ => destruct c end.
 
+(* ------------------------------------------------------------------------------------------ *)
+(* preservation                                                                                 *)
+Ltac destruct_world w :=
+  let c := fresh "c" in let v := fresh "v" in
+  destruct w as [c v li dq cx rc c2 cb ss g1 g2 g3 lcg lcd lwc ld sk lx rn sx ac dl n1 n2 n3 n4 n5];
+  destruct c as [cg sh cd sc wc rcc cr sw chn sd wk rv dn mx pk wt lk];
+  destruct v as [cg' sh' cd' sc' wc' rcc' cr' sw' chn' sd' wk' rv' dn' mx' pk' wt' lk'].
+
+Ltac destruct_pc_args :=
+  repeat match goal with
+  | d : side |- _ => destruct d
+  end.
+
+Ltac destruct_inv HI :=
+  destruct HI as [Hcl Hce Hlt Hrun Hokc Hokv Hmuxc Hdnc Hdnv Hl1 Hl2 Hdc Hdv Hxc Hkc Hkv Hv1 Hv0 Hn1 Hn2 Hn3 Hn4 Hn5 Hv2a Hv2b Hv2c Hv2d Hv5 Hv6 Hv7 Hv8 Hv9
+                  Hw6 Hw7 Hw8 Hw9 Hsd4 Ha1 Ha2 Ha2' Ha3 Ha4].
+
+Ltac use_section Hok :=
+  match goal with
+  | E : shutdown_section ?s = _ |- _ =>
+      let s' := fresh "s'" in let F := fresh "F" in
+      destruct (shutdown_section_ok s Hok) as [s' F];
+      destruct F as (F0 & F1 & F2 & F3 & F4 & F5 & F6 & F7 & F8 & F9 & F10 & F11);
+      rewrite F0 in E; injection E as E;
+      match type of E with ?a = ?b => subst a; destruct b end;
+      cbn in F1, F2, F3, F4, F5, F6, F7, F8, F9, F10, F11; subst
+  end.
+
+Lemma cnt_same f l i p p' : nth_error l i = Some p -> f p = f p' -> cnt f (set_nth i p' l) = cnt f l.
+Proof. intros H E. pose proof (cnt_set_nth f l i p p' H). rewrite E in H0. lia. Qed.
+
+Lemma at5_le l : cnt at5 l <= cnt ss59 l. Proof. apply cnt_le; intros []; simpl; congruence. Qed.
+Lemma at6_le l : cnt at6 l <= cnt ss59 l. Proof. apply cnt_le; intros []; simpl; congruence. Qed.
+Lemma at7_le l : cnt at7 l <= cnt ss59 l. Proof. apply cnt_le; intros []; simpl; congruence. Qed.
+Lemma at8_le l : cnt at8 l <= cnt ss59 l. Proof. apply cnt_le; intros []; simpl; congruence. Qed.
+Lemma at9_le l : cnt at9 l <= cnt ss59 l. Proof. apply cnt_le; intros []; simpl; congruence. Qed.
+Lemma ss59_le l : cnt ss59 l <= cnt ss49 l. Proof. apply cnt_le; intros []; simpl; congruence. Qed.
+Lemma ss59_split l : cnt at5 l + cnt at6 l + cnt at7 l + cnt at8 l + cnt at9 l = cnt ss59 l.
+Proof. induction l as [|a l IH]; simpl; auto. destruct a; simpl; lia. Qed.
+
+Ltac simp_cnt Hn :=
+  repeat match goal with
+  | |- context [cnt ?f (set_nth ?i ?q ?l)] => rewrite (cnt_same f l i _ q Hn (eq_refl _))
+  end.
+
+(* equations left by the case analysis of the step: use them in the goal *)
+Ltac rw_eqs :=
+  repeat match goal with
+  | H : ?X = true |- context [?X] => rewrite H
+  | H : ?X = false |- context [?X] => rewrite H
+  end.
+
+Ltac pf f Hn q :=
+  match type of Hn with nth_error ?l ?i = Some ?p =>
+    let H := fresh "C" in let H' := fresh "C" in
+    pose proof (cnt_set_nth f l i p q Hn) as H; cbn in H;
+    pose proof (cnt_ge f l i p Hn) as H'; cbn in H'
+  end.
+
+Ltac facts Hn q :=
+  pf in_listen Hn q; pf pre_sd0_cli Hn q; pf (pend Cli) Hn q; pf (pend Srv) Hn q; pf skip_cli Hn q;
+  pf (cs Cli) Hn q; pf (cs Srv) Hn q; pf at_sd4 Hn q;
+  pf ss59 Hn q; pf ss49 Hn q; pf at5 Hn q; pf at6 Hn q; pf at7 Hn q; pf at8 Hn q; pf at9 Hn q;
+  pf lt_pre Hn q; pf lt_all Hn q;
+  match type of Hn with nth_error ?l _ = _ =>
+    pose proof (at5_le l); pose proof (at6_le l); pose proof (at7_le l); pose proof (at8_le l);
+    pose proof (at9_le l); pose proof (ss59_le l); pose proof (ss59_split l)
+  end.
+
+Ltac split_ifs :=
+  repeat match goal with
+  | H : context [if ?b then _ else _] |- _ => is_var b; destruct b; cbn in H
+  | |- context [if ?b then _ else _] => is_var b; destruct b; cbn
+  end.
+
+Ltac arith := cbn [b2n] in *; first [ lia | (intros; first [lia | (b2n_bounds; lia)]) ].
+
+Ltac heavy Hn q :=
+  facts Hn q; split_ifs;
+  first [ arith
+        | (* a session after close(s.ch): the Closed flag is set because this thread is counted *)
+          (rewrite ?sess_ok_set_lock, ?sess_ok_set_mux; apply sess_ok_set_done;
+           [ rewrite ?sess_ok_set_mux; assumption
+           | cbn; match goal with |- ?b = true => destruct b; [reflexivity | exfalso; arith] end ])
+        | (* a closed channel is not nil *)
+          (match goal with |- is_nil _ = false => reflexivity end) ].
+
+Ltac one Hn q :=
+  cbn; rw_eqs;
+  first [ assumption | reflexivity
+        | (simp_cnt Hn; first [assumption | reflexivity])
+        | heavy Hn q ].
+
+Lemma step_inv pool w i p w' p' :
+  Inv pool w -> nth_error pool i = Some p -> exec New p w = Step w' p' -> Inv (set_nth i p' pool) w'.
+Proof.
+  intros HI Hn He.
+  destruct_inv HI.
+  destruct_world w.
+  cbn in *.
+  destruct p; destruct_pc_args; try (destruct x); try (destruct g); try (destruct w); cbn in He;
+    repeat (break_match_hyp He; try discriminate);
+    try use_section Hokc; try use_section Hokv;
+    inversion He; subst; clear He;
+    repeat match goal with
+           | |- context [ret_pc ?r] => is_var r; destruct r; cbn [ret_pc]
+           | |- context [ret2_pc ?r] => is_var r; destruct r; cbn [ret2_pc]
+           end;
+    match goal with |- Inv (set_nth _ ?q _) _ => constructor; try one Hn q end.
+Qed.
+
+(* ------------------------------------------------------------------------------------------ *)
+(* faults                                                                                       *)
+Ltac gf f Hn :=
+  match type of Hn with nth_error ?l ?i = Some ?p =>
+    let H' := fresh "G" in pose proof (cnt_ge f l i p Hn) as H'; cbn in H'
+  end.
+Ltac ge_facts Hn :=
+  gf in_listen Hn; gf pre_sd0_cli Hn; gf (pend Cli) Hn; gf (pend Srv) Hn; gf skip_cli Hn;
+  gf (cs Cli) Hn; gf (cs Srv) Hn; gf at_sd4 Hn; gf ss59 Hn; gf ss49 Hn; gf at5 Hn; gf at6 Hn; gf at7 Hn;
+  gf at8 Hn; gf at9 Hn; gf lt_pre Hn; gf lt_all Hn.
+
+Ltac no_section Hok :=
+  match goal with
+  | E : shutdown_section ?s = inr _ |- _ =>
+      let s' := fresh "s'" in let F := fresh "F" in
+      destruct (shutdown_section_ok s Hok) as [s' [F _]]; rewrite F in E; discriminate E
+  end.
+
+Ltac absurd_eq :=
+  match goal with
+  | H : true = false |- _ => discriminate H
+  | H : false = true |- _ => discriminate H
+  end.
+
+Lemma step_fault pool w i p f :
+  Inv pool w -> nth_error pool i = Some p -> exec New p w = Fault f -> f = SendOnClosed NDelS.
+Proof.
+  intros HI Hn He.
+  destruct_inv HI.
+  destruct_world w.
+  cbn in *.
+  destruct p; destruct_pc_args; try (destruct x); try (destruct g); try (destruct w); cbn in He;
+    unfold close_fault in He;
+    repeat (break_match_hyp He; try discriminate);
+    repeat match goal with
+           | H : match ?c with Nil => _ | _ => _ end = _ |- _ => is_var c; destruct c; try discriminate H
+           end;
+    try no_section Hokc; try no_section Hokv;
+    inversion He; subst; clear He; try reflexivity;
+    exfalso; cbn in *; try absurd_eq; ge_facts Hn; arith.
+Qed.
+
+(* ------------------------------------------------------------------------------------------ *)
+(* the initial state satisfies the invariant                                                    *)
+Lemma cnt_entry f :
+  (forall p, entry p = true -> f p = false) -> forall calls, forallb entry calls = true -> cnt f calls = 0.
+Proof.
+  intros H. induction calls as [|a l IH]; simpl; auto.
+  intros E. apply andb_prop in E. destruct E as [E1 E2].
+  rewrite (H _ E1). simpl. auto.
+Qed.
+
+Ltac entry_class :=
+  let p := fresh "p" in
+  intros p; destruct p; simpl; intros; try reflexivity; try discriminate;
+  repeat match goal with
+         | r : ret |- _ => destruct r
+         | d : side |- _ => destruct d
+         | b : bool |- _ => destruct b
+         end; simpl in *; try reflexivity; try discriminate.
+
+Lemma inv_init cpk spk chm rch cbk calls :
+  forallb entry calls = true -> Inv (pool0 calls) (world0 cpk spk chm rch cbk).
+Proof.
+  intros E. unfold pool0.
+  constructor; rewrite ?cnt_app;
+    repeat match goal with
+           | |- context [cnt ?f calls] => rewrite (cnt_entry f ltac:(entry_class) calls E)
+           end;
+    destruct cpk, spk, chm; vm_compute;
+    first [reflexivity | lia | (intros; first [reflexivity | lia | discriminate])].
+Qed.
+
+(* ------------------------------------------------------------------------------------------ *)
+(* channels_closed_once                                                                         *)
+Lemma run_inv sched : forall pool w, Inv pool w ->
+  match run New sched pool w with Running pool' w' => Inv pool' w' | Faulted f _ => f = SendOnClosed NDelS end.
+Proof.
+  apply (run_ind_inv New Inv (fun f => f = SendOnClosed NDelS)).
+  - intros; eapply step_inv; eauto.
+  - intros; eapply step_fault; eauto.
+Qed.
+
+Lemma channels_closed_once_partial cpk spk chm rch cbk calls sched f t :
+  forallb entry calls = true ->
+  run New sched (pool0 calls) (world0 cpk spk chm rch cbk) = Faulted f t -> f = SendOnClosed NDelS.
+Proof.
+  intros E H. pose proof (run_inv sched _ _ (inv_init cpk spk chm rch cbk calls E)) as R.
+  rewrite H in R. exact R.
+Qed.
+
+Lemma reachable_inv cpk spk chm rch cbk calls sched pool w :
+  forallb entry calls = true ->
+  run New sched (pool0 calls) (world0 cpk spk chm rch cbk) = Running pool w -> Inv pool w.
+Proof.
+  intros E H. pose proof (run_inv sched _ _ (inv_init cpk spk chm rch cbk calls E)) as R.
+  rewrite H in R. exact R.
+Qed.
+
+(* ------------------------------------------------------------------------------------------ *)
+(* without a server teardown among the calls nothing faults at all                              *)
+Definition ret_td (r : ret) : bool := match r with RDone => false | _ => true end.
+Definition srv_td (p : pc) : bool :=
+  match p with
+  | SV0 | SV1 | SV2 | SS0 _ | SS1 _ | SS2 _ | SS3 _ | SS4 _ | SS5 _ | SS6 _ | SS7 _ | SS8 _ | SS9 _ => true
+  | SD0 _ r | SD1 _ r _ | SD2 _ r _ | SD3 _ r _ | SD4 _ r => ret_td r
+  | SC0 r | SC1 r | SC2 r | SC3 r | SC4 r | SC5 r | SC6 r => ret_td r
+  | LC0 r | LC1 r | LC2 r | LC3 r | LC4 r => ret_td r
+  | _ => false
+  end.
+
+Record InvNS (pool : list pc) (w : world) : Prop := {
+  ns_ctx : sctx_done w = false;
+  ns_cnt : cnt srv_td pool = 0;
+  ns_dels : sv_dels w = Open
+}.
+
+Lemma step_ns pool w i p w' p' :
+  InvNS pool w -> nth_error pool i = Some p -> exec New p w = Step w' p' -> InvNS (set_nth i p' pool) w'.
+Proof.
+  intros [H1 H2 H3] Hn He.
+  pose proof (cnt_ge srv_td pool i p Hn) as G.
+  pose proof (cnt_set_nth srv_td pool i p p' Hn) as C.
+  destruct w as [c v li dq cx rc c2 cb ss g1 g2 g3 lcg lcd lwc ld sk lx rn sx ac dl n1 n2 n3 n4 n5].
+  cbn in H1, H3. subst sx n3.
+  destruct p; cbn in G; try (exfalso; lia);
+    try (destruct r; cbn in G; try (exfalso; lia));
+    try (destruct d);
+    cbn in He;
+    repeat (break_match_hyp He; try discriminate);
+    inversion He; subst; clear He; cbn in C;
+    (constructor; cbn; first [reflexivity | lia]).
+Qed.
+
+Lemma section_fault_kind s f : shutdown_section s = inr f -> is_remove_race f = false.
+Proof.
+  unfold shutdown_section, close_fault. intros H.
+  repeat match goal with
+         | H : context [match ?X with _ => _ end] |- _ => destruct X eqn:?; try discriminate
+         end;
+  repeat match goal with H : Some _ = Some _ |- _ => inversion H; clear H; subst end;
+  inversion H; subst; reflexivity.
+Qed.
+
+Lemma step_ns_fault pool w p :
+  InvNS pool w -> exec New p w = Fault (SendOnClosed NDelS) -> False.
+Proof.
+  intros [H1 H2 H3] He.
+  destruct w as [c v li dq cx rc c2 cb ss g1 g2 g3 lcg lcd lwc ld sk lx rn sx ac dl n1 n2 n3 n4 n5].
+  cbn in H1, H3. subst sx n3.
+  destruct p; try (destruct d); cbn in He; unfold close_fault in He;
+    repeat match goal with
+           | H : context [match ?X with _ => _ end] |- _ => destruct X eqn:?; try discriminate
+           end;
+    repeat match goal with H : Some _ = Some _ |- _ => inversion H; clear H; subst end;
+    try (inversion He; subst; discriminate);
+    match goal with E : shutdown_section _ = inr _ |- _ =>
+      apply section_fault_kind in E; inversion He; subst; discriminate E end.
+Qed.
+
+Definition entry_ns (p : pc) : bool := entry p && negb (srv_td p).
+
+Lemma entry_ns_entry calls : forallb entry_ns calls = true -> forallb entry calls = true.
+Proof.
+  induction calls; simpl; auto. unfold entry_ns at 1. intros H.
+  apply andb_prop in H. destruct H as [H1 H2]. apply andb_prop in H1. destruct H1 as [H1 _].
+  rewrite H1. simpl. auto.
+Qed.
+
+Lemma cnt_entry_ns calls : forallb entry_ns calls = true -> cnt srv_td calls = 0.
+Proof.
+  induction calls; simpl; auto. unfold entry_ns at 1. intros H.
+  apply andb_prop in H. destruct H as [H1 H2]. apply andb_prop in H1. destruct H1 as [_ H1].
+  destruct (srv_td a); simpl in *; try discriminate. auto.
+Qed.
+
+Lemma channels_closed_once_sessions cpk spk chm rch cbk calls sched :
+  forallb entry_ns calls = true ->
+  faulted (run New sched (pool0 calls) (world0 cpk spk chm rch cbk)) = false.
+Proof.
+  intros E.
+  pose proof (run_ind_inv New (fun pool w => Inv pool w /\ InvNS pool w) (fun _ => False)) as R.
+  assert (I0 : Inv (pool0 calls) (world0 cpk spk chm rch cbk) /\ InvNS (pool0 calls) (world0 cpk spk chm rch cbk)).
+  { split. apply inv_init. apply entry_ns_entry; auto.
+    constructor; try reflexivity. unfold pool0. rewrite cnt_app, (cnt_entry_ns _ E). reflexivity. }
+  specialize (R ltac:(intros ? ? ? ? ? ? [A B] ? ?; split; [eapply step_inv | eapply step_ns]; eauto)).
+  specialize (R ltac:(intros ? ? ? ? ? [A B] Hn He;
+                      pose proof (step_fault _ _ _ _ _ A Hn He); subst; eapply step_ns_fault; eauto)).
+  specialize (R sched _ _ I0).
+  destruct (run New sched (pool0 calls) (world0 cpk spk chm rch cbk)); simpl; auto. contradiction.
+Qed.
